@@ -206,6 +206,7 @@ def check_shape(case):
                                     continue
                                 calls += 1
                                 rt = int if ret == 'int' else tuple
+                                held = (cpos.x, cpos.y, cpos.z) if hasattr(cpos, 'xyz') else None
                                 if entry == 'specific':
                                     fn = world.get_moore_neighbours if metric == 'moore' else \
                                         world.get_neumann_neighbours
@@ -216,6 +217,12 @@ def check_shape(case):
                                     got = world.get_neighbours(cpos, radius=r, incl_center=incl, ret_type=rt,
                                                                mode=metric)
                                 exp = exp_i if ret == 'int' else exp_t
+                                if held is not None and [(type(v), v) for v in (cpos.x, cpos.y, cpos.z)] != \
+                                        [(type(v), v) for v in held]:
+                                    # a query reads the position it is given (an agent's own component): it stays as it was
+                                    raise Violation(f'{metric} neighbourhood query (centre given as {fname}, via {entry}) changed '
+                                                    f'the position component it was handed', expected=[repr(v) for v in held],
+                                                    observed=[repr(v) for v in (cpos.x, cpos.y, cpos.z)])
                                 if fname in ('id', 'pc0') and isinstance(got, list):
                                     # the caller may do what it likes with the answer: ask again afterwards
                                     got.reverse()
